@@ -183,13 +183,14 @@ def audit(snapshot, expected_records, fragments):
             out.append('empty line in the log')
         else:
             out.append('line that is not a complete JSON record with keys t,seq,type,msg')
-    if seqs != list(range(1, len(seqs) + 1)):
+    # the statement fixes the step (exactly one), not the first number
+    if seqs and seqs != list(range(seqs[0], seqs[0] + len(seqs))):
         if len(set(seqs)) != len(seqs):
             out.append('sequence numbers reused')
-        elif seqs and sorted(seqs) == list(range(min(seqs), min(seqs) + len(seqs))) and min(seqs) == 1:
+        elif sorted(seqs) == list(range(min(seqs), min(seqs) + len(seqs))):
             out.append('sequence numbers out of order across files')
         else:
-            out.append('sequence numbers have a gap or do not start at 1')
+            out.append('sequence numbers have a gap')
     if len(seqs) not in expected_records and not out:
         expected_records = min(expected_records)
         out.append('%s complete records than reported events' % ('fewer' if len(seqs) < expected_records else 'more'))
